@@ -3,7 +3,9 @@
 Parts:
   O1  implementation oracle over generated grammar models (text-compiled, JSON-reloaded, built
       programmatically the way g2e does): pretty() compiles, is a fixpoint, parses sampled inputs to equal
-      ASTs, keeps directives / keywords / params / base / decorators, railroads() completes with equal widths.
+      ASTs, is built from the same constructors, keeps directives / keywords / params / base / decorators,
+      railroads() completes with equal widths.  Families: random grammars (clean / risky pools), the layout
+      family (every container around bodies that the printers wrap over several lines), wide random grammars.
   P2  quoting level: Pretty.v (py_repr, pattern printer, the string / regex lexers + eval_escapes) vs
       repr(), Token._pretty, Pattern._pretty and tatsu.compile of a one-rule grammar holding the literal.
   P3  Rails.v vs tatsu/railroads/railmath.py on random rails.
@@ -662,8 +664,8 @@ def sample_inputs(spec, rng, n=4, rich=0):
 # ---------------------------------------------------------------------------------------------------
 # the oracle on one model
 
-class Timeout(Exception):
-    pass
+class Timeout(BaseException):
+    """not an Exception: an `except Exception` inside the code under test must not swallow it"""
 
 
 def _alarm(signum, frame):
@@ -671,13 +673,16 @@ def _alarm(signum, frame):
 
 
 def guarded(fn, secs=5):
-    old = signal.signal(signal.SIGALRM, _alarm)
-    signal.setitimer(signal.ITIMER_REAL, secs)
+    """run fn() under a budget of CPU seconds of this process (ITIMER_PROF: independent of the load of the machine,
+    so a budget overrun is reproducible).  The timer keeps firing every half second until it is cancelled: a Timeout
+    raised inside a destructor / weakref callback is discarded by the interpreter."""
+    old = signal.signal(signal.SIGPROF, _alarm)
+    signal.setitimer(signal.ITIMER_PROF, secs, 0.5)
     try:
         return fn()
     finally:
-        signal.setitimer(signal.ITIMER_REAL, 0)
-        signal.signal(signal.SIGALRM, old)
+        signal.setitimer(signal.ITIMER_PROF, 0)
+        signal.signal(signal.SIGPROF, old)
 
 
 def canon(x):
@@ -731,7 +736,23 @@ def shape(node):
         return ('Dot', ())
     if t in ('Named', 'NamedList', 'Call', 'RuleInclude', 'Rule', 'BasedRule'):
         t += ':' + str(getattr(node, 'name', ''))
-    return (t, tuple(shape(c) for c in node.children()))
+    kids = tuple(shape(c) for c in node.children())
+    if t == 'Sequence':
+        # a Sequence placed directly in a Sequence (only a constructor-built model can have one) prints flat, and a
+        # Sequence of one element prints as the element: same text, same parser
+        flat = []
+        for k in kids:
+            flat += list(k[1]) if k[0] == 'Sequence' else [k]
+        if len(flat) == 1:
+            return flat[0]
+        kids = tuple(flat)
+    if t == 'Choice':      # likewise a Choice placed directly in an option of a Choice prints as more options
+        flat = []
+        for k in kids:
+            inner = k[1][0] if k[0] == 'Option' and len(k[1]) == 1 else None
+            flat += list(inner[1]) if inner and inner[0] == 'Choice' else [k]
+        kids = tuple(flat)
+    return (t, kids)
 
 
 def shape_diff(a, b):
@@ -752,6 +773,8 @@ def check_model(m, inputs, compile_fn):
     """first failure of the property on model m: (kind, detail) or None"""
     try:
         p1 = guarded(lambda: m.pretty())
+    except Timeout:
+        return ('skip', 'timeout:pretty')
     except Exception as e:
         return ('pretty-raises', type(e).__name__)
     if not isinstance(p1, str):
@@ -759,11 +782,13 @@ def check_model(m, inputs, compile_fn):
     try:
         m2 = guarded(lambda: compile_fn(p1))
     except Timeout:
-        return ('recompile-fails', 'timeout')
+        return ('skip', 'timeout:recompile')      # budget overruns are never a verdict (hangs are C08's subject)
     except Exception as e:
         return ('recompile-fails', type(e).__name__)
     try:
         p2 = guarded(lambda: m2.pretty())
+    except Timeout:
+        return ('skip', 'timeout:pretty2')
     except Exception as e:
         return ('pretty2-raises', type(e).__name__)
     if p2 != p1:
@@ -790,6 +815,8 @@ def check_model(m, inputs, compile_fn):
         o2 = parse_outcome(m2, text)
         if o1 == o2 == ('timeout',):
             break      # a hang of the engine itself (e.g. a whitespace pattern that matches empty) is not C13's
+        if ('timeout',) in (o1, o2):
+            continue   # one side over budget: the input is skipped, never a verdict
         if o1 != o2:
             return ('parse-differs', f'{o1[0]}->{o2[0]}')
     # "the same parser": the recompiled model is built from the same constructors in the same places (a sampled
@@ -812,6 +839,8 @@ def check_rails(m):
     try:
         guarded(lambda: m.railroads())
         blocks = guarded(lambda: [RailroadNodeWalker().walk(r) for r in m.rules])
+    except Timeout:
+        return ('skip', 'timeout:rails')
     except AssertionError:
         return ('rails-assert', '')
     except Exception as e:
@@ -837,8 +866,21 @@ def obtain(spec, origin):
     return m
 
 
+LAST = {'wrapped': False}      # coverage accounting: did the last model checked by failure() print a wrapped rule?
+
+
+def is_wrapped(m) -> bool:
+    """does the printer lay a rule of this model out over several lines?"""
+    try:
+        return any(len(guarded(lambda: r.pretty()).strip().splitlines()) > 1 + len(r.decorators or [])
+                   + bool(r.no_memo) + bool(r.is_name) for r in m.rules)
+    except (Timeout, Exception):
+        return False
+
+
 def failure(spec, origin, inputs):
     """(kind, detail) | None | ('skip', why)"""
+    LAST['wrapped'] = False
     import tatsu
     try:
         m = guarded(lambda: obtain(spec, origin))
@@ -848,6 +890,7 @@ def failure(spec, origin, inputs):
         return ('skip', 'timeout')
     except Exception as e:
         return ('skip', 'invalid:' + type(e).__name__)
+    LAST['wrapped'] = is_wrapped(m)
     f = check_model(m, inputs, tatsu.compile)
     if f:
         return f
@@ -986,12 +1029,14 @@ def spec_candidates(spec):
                 yield dict(spec, directives=spec['directives'][:i] + [(n, v[:j] + v[j + 1:])] + spec['directives'][i + 1:])
 
 
-def shrink(spec, origin, inputs, kind, budget=400):
+def shrink(spec, origin, inputs, kind, budget=400, detail=None):
     """greedy structural shrink keeping the same failure kind"""
     def bad(s, ins):
         if not spec_ok(s):
             return False
         f = failure(s, origin, ins)
+        if f is not None and f[0] == kind == 'structure-differs' and detail is not None:
+            return f[1] == detail      # do not drift to another structural difference while shrinking
         return f is not None and f[0] == kind
     steps = 0
     changed = True
@@ -1233,6 +1278,22 @@ def atoms(spec):
 
 # ('eol', 'based', 'based+params' left this set when D8c / D8d were fixed in /repo: a based rule or `$->` next to a
 # swallowed rule header is as incidental as any other leftover of D8k)
+def guard_empty(e):
+    """e with every `{}` that would END the text of e closed by a bracket: `({})`"""
+    k = e[0]
+    if k == 'empty':
+        return ('group', e)
+    if k == 'seq' and e[1]:
+        return ('seq', e[1][:-1] + [guard_empty(e[1][-1])])
+    if k == 'choice':
+        return ('choice', [guard_empty(x) for x in e[1]])
+    if k in NAMED:
+        return (k, e[1], guard_empty(e[2]))
+    if k in ('override', 'overridelist', 'la', 'nla', 'skipto'):
+        return (k, guard_empty(e[1]))
+    return e
+
+
 RISKY_FEATS = {'param', 'kwparam', 'flag', '@nomemo', '@nostak', '@name', '@isname',
                'keyword', 'fail', 'tok:sq+dq', 'pat:dq+slash', 'pat:edge-space', 'pat:nl', 'pat:empty', 'pat:dot',
                'const:nl', 'const:bq', 'const:edge-space', 'const:empty', '@@namechars', '@@whitespace', '@@comments',
@@ -1330,8 +1391,21 @@ class Prober:
         if hit:
             chk.count('explained.by-atom')
             return
+        # D8k by counterfactual: a rule whose text ENDS in `{}` swallows the next rule header.  When the same grammar
+        # with those `{}` closed by a bracket (`({})`) round-trips, the recorded defect is the whole explanation; its
+        # minimal witness (the empty-then-rule probe) is what gets reported, not a half-shrunk grammar.
+        if f[0] in ('recompile-fails', 'not-fixpoint', 'rules-differ'):
+            spec2 = dict(spec, rules=[dict(r, exp=guard_empty(r['exp'])) for r in spec['rules']])
+            if spec2 != spec and failure(spec2, origin, inputs) is None:
+                for key, ms in at:
+                    if 'empty-then-rule' in key:
+                        pf, ins, ms = self.probe(key, ms, origin)
+                        if pf is not None and pf[0] != 'skip':
+                            self.report(chk, pf, origin, ms, ins)
+                            chk.count('explained.by-counterfactual')
+                            return
         chk.count('explained.by-shrink')
-        small, sins = shrink(spec, origin, inputs, f[0], 120 if chk.quick else 800)
+        small, sins = shrink(spec, origin, inputs, f[0], 120 if chk.quick else 800, detail=f[1])
         f2 = failure(small, origin, sins) or f
         self.report(chk, f2, origin, small, sins)
 
@@ -1429,7 +1503,7 @@ def wide_choice(rng, lo, hi):
     return ('choice', opts)
 
 
-def layout_bodies(rng):
+def layout_bodies(rng, quick=False):
     """(label, expression) - expressions that the printers lay out over several lines, for each of the reasons they
     have (Sequence longer than the line, Choice longer than its budget, an element that is itself wrapped), and
     one-line controls just below the thresholds"""
@@ -1444,14 +1518,19 @@ def layout_bodies(rng):
             ('opt', wide_choice(rng, 46, 70)), ('clo', wide_seq(rng, 74, 100)), ('group', wide_choice(rng, 46, 70)),
             ('gather', ('tok', ','), wide_seq(rng, 74, 100)), ('named', 'val', ('group', wide_choice(rng, 46, 70)))])])),
     ]
+    if quick:      # one wrapped body for each reason + one control (which ones varies with the seed)
+        by = dict(out)
+        keep = ['seq>72', rng.choice(['choice>43', 'choice>72']),
+                rng.choice(['short-choice-of-wrapped', 'short-seq-of-wrapped']), rng.choice(['seq~72', 'choice~43'])]
+        out = [(k, by[k]) for k in keep]
     return out
 
 
-def layout_specs(rng):
+def layout_specs(rng, quick=False):
     """(key, spec): every container kind around every kind of wrapped body, in a two-rule grammar"""
     g = Gen(rng, risky=False, prog=False)
     seps = [('tok', ','), ('tok', ';'), ('pat', r'\s*;'), ('tok', 'otherwise')]
-    for label, body in layout_bodies(rng):
+    for nbody, (label, body) in enumerate(layout_bodies(rng, quick)):
         boxed = g.atomize(body)
         conts = [('rule', body), ('group', ('group', body)), ('skipgroup', ('seq', [('skipgroup', body), ('tok', 'a')])),
                  ('opt', ('seq', [('opt', body), ('tok', ';')])),
@@ -1468,6 +1547,8 @@ def layout_specs(rng):
         # the separator wraps instead of (or as well as) the body
         k = rng.choice(sorted(JOINS))
         conts.append((k + '/sep', (k, boxed if boxed[0] == 'group' else ('group', boxed), ('tok', 'a'))))
+        if quick and nbody >= 2:      # quick: every container around two wrapped bodies, a sample around the others
+            conts = rng.sample(conts, 8)
         for cname, exp in conts:
             spec = mini(exp)
             if rng.random() < 0.3:
@@ -1476,10 +1557,8 @@ def layout_specs(rng):
 
 
 def wrapped(spec, origin) -> bool:
-    """does the printer lay a rule of this model out over several lines?  (coverage accounting only)"""
     try:
-        m = obtain(spec, origin)
-        return any(len(r.pretty().strip().splitlines()) > 1 + len(r.decorators or []) for r in m.rules)
+        return is_wrapped(obtain(spec, origin))
     except Exception:
         return False
 
@@ -1488,16 +1567,16 @@ def run_layout(chk: Check, prober: Prober):
     rng = chk.rng
     origins = ('text', 'prog', 'json', 'progjson')
     nbad = 0
-    reps = 1 if chk.quick else 3
+    reps = 1
     i = 0
     for _ in range(reps):
-        for key, spec in layout_specs(rng):
+        for key, spec in layout_specs(rng, chk.quick):
             i += 1
             inputs = sample_inputs(spec, rng, 3, rich=2)
             for og in ([origins[i % 2]] if chk.quick else origins):
                 f = failure(spec, og, inputs)
                 chk.count(f'layout.{og}.' + ('ok' if f is None else f[0] if f[0] != 'skip' else 'skip:' + f[1]))
-                chk.count('layout.wrapped' if wrapped(spec, og) else 'layout.one-line')
+                chk.count('layout.wrapped' if LAST['wrapped'] else 'layout.one-line')
                 chk.case(f'layout:{og}:' + json.dumps(spec, sort_keys=True, default=str),
                          nontrivial=(f is None or f[0] != 'skip'))
                 if f is None or f[0] == 'skip':
@@ -1505,7 +1584,7 @@ def run_layout(chk: Check, prober: Prober):
                 nbad += 1
                 prober.explain(spec, og, inputs, f)
     # random grammars from the wide pools
-    n = 24 if chk.quick else 120
+    n = 14 if chk.quick else 60
     for it in range(n):
         prog = it % 3 == 2
         for _ in range(12):      # keep the compile / parse times small: at most 90 nodes
@@ -1523,7 +1602,7 @@ def run_layout(chk: Check, prober: Prober):
         for og in ([ogs[(it // 3) % 2]] if chk.quick else ogs):
             f = failure(spec, og, inputs)
             chk.count(f'layout.{og}.' + ('ok' if f is None else f[0] if f[0] != 'skip' else 'skip:' + f[1]))
-            chk.count('layout.wrapped' if wrapped(spec, og) else 'layout.one-line')
+            chk.count('layout.wrapped' if LAST['wrapped'] else 'layout.one-line')
             chk.case(f'layout:{og}:' + json.dumps(spec, sort_keys=True, default=str),
                      nontrivial=(f is None or f[0] != 'skip'))
             if f is None or f[0] == 'skip':
@@ -1837,8 +1916,16 @@ def main():
                 'patterns with slashes/quotes, tokens with quotes/backslashes, joins/gathers, named/override, params, '
                 'kwparams, base rules, decorators, directives, keywords), every 4th from the risky pools, every 3rd built '
                 'with the tatsu.peg constructors; obtained via text / JSON reload / constructors / constructors+JSON; '
-                '3-5 sampled sentences + mutations each; failing grammars explained by single-feature probes (each a '
-                'minimal grammar) or shrunk. thorough: also every pool entry and node kind alone. P2: all texts of length '
+                '3-5 sampled sentences + mutations + a rich sentence each; failing grammars explained by single-feature probes (each a '
+                'minimal grammar) or shrunk. Layout family: every container kind (group, skip group, optional, closures, '
+                'lookaheads, skip-to, override, named, the six joins / gathers incl. a wrapped separator, choice option, '
+                'sequence element, rule body) around bodies that the printers wrap (sequence past 72 columns, choice past '
+                'its budget, a short body holding a wrapped element) and one-line controls at the thresholds, plus random '
+                'grammars from pools of long literals / names; sentences where every repetition runs at least twice and '
+                'patterns are glued to the preceding text (patterns do not skip blanks). Besides equal ASTs on the sampled '
+                'inputs the recompiled model must be built from the same constructors in the same places (Fail = !(), '
+                'pattern . = Dot, nested sequences / choices flattened). Budgets are CPU seconds; an overrun skips the '
+                'case and is never a verdict. thorough: also every pool entry and node kind alone. P2: all texts of length '
                 '<= 2 over a 24-character alphabet, all of length <= 3 (quick) / 4 (thorough) over quote, dquote, backslash, '
                 'a, newline, random longer ones; hand-written escape literals. P3: random rails incl. wide characters and '
                 'ETX. Non-trivial: model obtained (not skipped) / text non-empty; distinct by content hash.')
